@@ -555,60 +555,78 @@ func (self *Value) updateByteLen(originLen int, address []int, isPacked bool, pa
 	diffLen := afterLen - originLen
 	previousType := proto.UNKNOWN
 
+	// fixLen adds diffLen to the length prefix of the [tag][length] header at addressPtr and
+	// returns by how many bytes the header itself grew or shrank
+	fixLen := func(addressPtr int) int {
+		newBytes := NewBytesFromPool()
+		defer FreeBytesToPool(newBytes)
+		// tag
+		buf := rt.BytesFrom(rt.AddPtr(self.v, uintptr(addressPtr)), self.l-addressPtr, self.l-addressPtr)
+		_, tagOffset := protowire.ConsumeVarint(buf)
+		// length
+		length, lenOffset := protowire.ConsumeVarint(buf[tagOffset:])
+		newLength := int(length) + diffLen
+		newBytes = protowire.AppendVarint(newBytes, uint64(newLength))
+		// length == 0 means had been deleted all the data in the field
+		if newLength == 0 {
+			newBytes = newBytes[:0]
+		}
+
+		subLen := len(newBytes) - lenOffset
+
+		if subLen == 0 {
+			// no need to change length
+			copy(buf[tagOffset:tagOffset+lenOffset], newBytes)
+			return 0
+		}
+
+		// split length
+		srcHead := rt.AddPtr(self.v, uintptr(addressPtr+tagOffset))
+		if newLength == 0 {
+			// delete tag
+			srcHead = rt.AddPtr(self.v, uintptr(addressPtr))
+			subLen -= tagOffset
+		}
+
+		srcTail := rt.AddPtr(self.v, uintptr(addressPtr+tagOffset+lenOffset))
+		l0 := int(uintptr(srcHead) - uintptr(self.v))
+		l1 := len(newBytes)
+		l2 := int(uintptr(self.v) + uintptr(self.l) - uintptr(srcTail))
+
+		// copy three slices into new buffer
+		newBuf := make([]byte, l0+l1+l2)
+		copy(newBuf[:l0], rt.BytesFrom(self.v, l0, l0))
+		copy(newBuf[l0:l0+l1], newBytes)
+		copy(newBuf[l0+l1:l0+l1+l2], rt.BytesFrom(srcTail, l2, l2))
+		self.v = rt.GetBytePtr(newBuf)
+		self.l = int(len(newBuf))
+		return subLen
+	}
+
 	for i := len(address) - 1; i >= 0; i-- {
 		// notice: when i == len(address) - 1, it do not change bytes length because it has been changed in replace function, just change previousType
 		pathType := path[i].t
 		addressPtr := address[i]
 		if previousType == proto.MESSAGE || (previousType == proto.LIST && isPacked) {
-			newBytes := NewBytesFromPool()
-			// tag
-			buf := rt.BytesFrom(rt.AddPtr(self.v, uintptr(addressPtr)), self.l-addressPtr, self.l-addressPtr)
-			_, tagOffset := protowire.ConsumeVarint(buf)
-			// length
-			length, lenOffset := protowire.ConsumeVarint(buf[tagOffset:])
-			newLength := int(length) + diffLen
-			newBytes = protowire.AppendVarint(newBytes, uint64(newLength))
-			// length == 0 means had been deleted all the data in the field
-			if newLength == 0 {
-				newBytes = newBytes[:0]
-			}
-
-			subLen := len(newBytes) - lenOffset
-
-			if subLen == 0 {
-				// no need to change length
-				copy(buf[tagOffset:tagOffset+lenOffset], newBytes)
-				continue
-			}
-
-			// split length
-			srcHead := rt.AddPtr(self.v, uintptr(addressPtr+tagOffset))
-			if newLength == 0 {
-				// delete tag
-				srcHead = rt.AddPtr(self.v, uintptr(addressPtr))
-				subLen -= tagOffset
-			}
-
-			srcTail := rt.AddPtr(self.v, uintptr(addressPtr+tagOffset+lenOffset))
-			l0 := int(uintptr(srcHead) - uintptr(self.v))
-			l1 := len(newBytes)
-			l2 := int(uintptr(self.v) + uintptr(self.l) - uintptr(srcTail))
-
-			// copy three slices into new buffer
-			newBuf := make([]byte, l0+l1+l2)
-			copy(newBuf[:l0], rt.BytesFrom(self.v, l0, l0))
-			copy(newBuf[l0:l0+l1], newBytes)
-			copy(newBuf[l0+l1:l0+l1+l2], rt.BytesFrom(srcTail, l2, l2))
-			self.v = rt.GetBytePtr(newBuf)
-			self.l = int(len(newBuf))
-			if isPacked {
+			subLen := fixLen(addressPtr)
+			if subLen != 0 && isPacked {
 				isPacked = false
 			}
 			diffLen += subLen
-			FreeBytesToPool(newBytes)
 		}
 
 		if pathType == PathStrKey || pathType == PathIntKey {
+			// the value lives in a map entry [entry tag][entry length][key][value]: the entry's own
+			// length prefix covers the value, too. address[i] is inside the entry; find where it starts.
+			if diffLen != 0 {
+				from := 0
+				if i > 0 {
+					from = address[i-1]
+				}
+				if entry := self.findMapEntry(from, addressPtr); entry >= 0 {
+					diffLen += fixLen(entry)
+				}
+			}
 			previousType = proto.MAP
 		} else if pathType == PathIndex {
 			previousType = proto.LIST
@@ -616,6 +634,30 @@ func (self *Value) updateByteLen(originLen int, address []int, isPacked bool, pa
 			previousType = proto.MESSAGE
 		}
 	}
+}
+
+// findMapEntry walks the consecutive [tag][length][payload] records that start at offset from and
+// returns the start of the one that contains offset pos (-1 if none does).
+func (self *Value) findMapEntry(from int, pos int) int {
+	buf := rt.BytesFrom(self.v, self.l, self.l)
+	// pos lies strictly inside the entry of an existing key (behind its header and key); a new entry
+	// is spliced in at a record boundary and is already complete
+	for at := from; at >= 0 && at < len(buf) && at < pos; {
+		tag, n1 := protowire.ConsumeVarint(buf[at:])
+		if n1 < 0 || tag&7 != uint64(proto.BytesType) {
+			return -1 // not a run of length-delimited records
+		}
+		length, n2 := protowire.ConsumeVarint(buf[at+n1:])
+		if n2 < 0 || length > uint64(len(buf)) {
+			return -1
+		}
+		end := at + n1 + n2 + int(length)
+		if pos < end {
+			return at
+		}
+		at = end
+	}
+	return -1
 }
 
 // UnsetByPath searches longitudinally and unsets a sub value at the given path from the value.
